@@ -114,6 +114,9 @@ func (td *typeDecls) index() {
 	for _, v := range td.rs.Run.Registered {
 		walk(v, 0)
 	}
+	for _, v := range td.rs.Run.AddArgs {
+		walk(v, 0)
+	}
 	// identities established on this path
 	for _, d := range td.rs.Run.Decisions {
 		pre := ""
@@ -155,7 +158,7 @@ func (td *typeDecls) index() {
 			a, b := td.find(pair[0]), td.find(pair[1])
 			if a != b {
 				// keep the value the generator learnt more about as the representative
-				if opaqueInfo(b) > opaqueInfo(a) || typTableRe.MatchString(b.Origin) {
+				if opaqueInfo(b) > opaqueInfo(a) || typTableRe.MatchString(b.Origin) || b.Origin == "types.NewStruct(nil,nil)" {
 					a, b = b, a
 				}
 				td.parent[b] = a
@@ -171,6 +174,11 @@ func (td *typeDecls) matchOrigins(a, b string) [][2]*VOpaque {
 		if typTableRe.MatchString(o) {
 			if _, ok := td.byOrigin[o]; !ok {
 				td.byOrigin[o] = &VOpaque{Origin: o}
+			}
+		}
+		if o == "types.NewStruct(nil,nil)" {
+			if _, ok := td.byOrigin[o]; !ok {
+				td.byOrigin[o] = &VOpaque{Origin: o, Kind: "*types.Struct", built: true, attrs: map[string]Value{"#fields": &VList{}}}
 			}
 		}
 	}
@@ -346,6 +354,49 @@ func (td *typeDecls) compOf(v Value, attr string) string {
 	return td.nameFor(td.freshAttr[u][attr], 1)
 }
 
+// compVal: the component value (Elem, Key) of a type value, if the run looked at it.
+func (td *typeDecls) compVal(v Value, attr string) (Value, bool) {
+	o, ok := v.(*VOpaque)
+	if !ok || o == nil {
+		return nil, false
+	}
+	o = td.find(o)
+	u := underlyingVal(o)
+	if u == nil {
+		u = o
+	}
+	a, ok := u.attrs[attr]
+	return a, ok
+}
+
+// sigResult: the declared name of the single result type of a function-typed value ("" if not exactly one).
+func (td *typeDecls) sigResult(v Value) string {
+	o, ok := v.(*VOpaque)
+	if !ok || o == nil {
+		return ""
+	}
+	u := underlyingVal(td.find(o))
+	if u == nil || u.Kind != "*types.Signature" {
+		return ""
+	}
+	r, ok := u.attrs["Results"].(*VOpaque)
+	if !ok {
+		return ""
+	}
+	el, ok := r.attrs["#elems"].(*VList)
+	if !ok || len(el.Elems) != 1 {
+		return ""
+	}
+	eo, ok := el.Elems[0].(*VOpaque)
+	if !ok {
+		return ""
+	}
+	if tv, ok := eo.attrs["Type"]; ok {
+		return td.nameFor(tv, 1)
+	}
+	return ""
+}
+
 // renderName renders a name template with the run's placeholder identifiers.
 func (td *typeDecls) renderName(v VStr) string {
 	out := ""
@@ -387,12 +438,14 @@ func (td *typeDecls) basicName(u *VOpaque) string {
 			return "?" + d.Cands[d.Choice]
 		}
 	}
-	// if-form: B:<origin>.Kind()==<n> answered true
+	// if-form: B:<origin>.Kind()==<n> answered true, or !=<n> answered false
 	eq := "B:" + u.Origin + ".Kind()=="
 	eqT := tieRe.ReplaceAllString(eq, "[*]")
+	ne := "B:" + u.Origin + ".Kind()!="
+	neT := tieRe.ReplaceAllString(ne, "[*]")
 	for _, d := range run.Decisions {
-		for _, p := range []string{eq, eqT} {
-			if strings.HasPrefix(d.Sym, p) && d.Choice == 0 {
+		for pi, p := range []string{eq, eqT, ne, neT} {
+			if strings.HasPrefix(d.Sym, p) && ((pi < 2 && d.Choice == 0) || (pi >= 2 && d.Choice == 1)) {
 				n := 0
 				if _, err := fmt.Sscanf(strings.TrimPrefix(d.Sym, p), "%d", &n); err == nil && n > 0 && n < len(types.Typ) {
 					nm := types.Typ[n].Name()
@@ -542,6 +595,18 @@ func (td *typeDecls) declare(name string, o *VOpaque, depth int) {
 				dir = "<-chan "
 			}
 		}
+		// a direction test answered on this path: <origin>.Dir()==2 (RecvOnly) / ==1 (SendOnly)
+		for _, cand := range []*VOpaque{u, o} {
+			if cand == nil {
+				continue
+			}
+			if d, ok := run.decision("B:" + cand.Origin + ".Dir()==2"); ok && d.Choice == 0 {
+				dir = "<-chan "
+			}
+			if d, ok := run.decision("B:" + cand.Origin + ".Dir()==1"); ok && d.Choice == 0 {
+				dir = "chan<- "
+			}
+		}
 		emit(dir + sub("Elem"))
 	case "*types.Signature":
 		res := tuple("Results", false)
@@ -677,11 +742,17 @@ func typedSource(rs *Resid, funcSig func(h *Hole, td *typeDecls) string) (string
 	return src, ok
 }
 
+// lastSkip: why the last residual could not be typed (diagnostics only).
+var lastSkip string
+
 func typecheckResidOpt(rs *Resid, funcSig func(h *Hole, td *typeDecls) string, srcOnly bool) ([]string, bool, string) {
+	lastSkip = ""
 	if rs.Err != nil {
+		lastSkip = "does not parse"
 		return nil, false, ""
 	}
 	if rs.Run.RecCut || strings.Contains(rs.Run.Text, "__RECURSE_") {
+		lastSkip = "recursion cut"
 		return nil, false, ""
 	}
 	td := &typeDecls{rs: rs, byVal: map[*VOpaque]string{}}
@@ -739,15 +810,53 @@ func typecheckResidOpt(rs *Resid, funcSig func(h *Hole, td *typeDecls) string, s
 				sig = funcSig(h, td)
 			}
 			if sig == "" {
+				lastSkip = "no documented signature for helper of " + h.Who
 				return nil, false, ""
 			}
 			td.decls = append(td.decls, fmt.Sprintf("func %s%s { panic(0) }", id, sig))
 		case "EXPR", "OPAQUE":
+			lastSkip = h.Kind + " hole " + h.Origin
 			return nil, false, ""
 		}
 	}
+	// the call site: the derived function must accept arguments of exactly the types the call was registered with
+	callsite := ""
+	if len(rs.Funcs) > 0 && len(rs.Run.AddArgs) > 0 && funcSig != nil {
+		var decl, args []string
+		var callArgs []Value
+		for _, v := range rs.Run.AddArgs {
+			// a multi-value call as the only argument (deriveTuple(f())) arrives as one *types.Tuple
+			if o, ok := v.(*VOpaque); ok && o.Kind == "*types.Tuple" {
+				if len(rs.Run.AddArgs) > 1 {
+					td.skip = "infeasible: a multi-value call next to other arguments"
+				}
+				if el, ok := o.attrs["#elems"].(*VList); ok {
+					for _, e := range el.Elems {
+						if eo, ok := e.(*VOpaque); ok {
+							if tv, ok := eo.attrs["Type"]; ok {
+								callArgs = append(callArgs, tv)
+							} else {
+								callArgs = append(callArgs, &VOpaque{Origin: eo.Origin + ".Type()"})
+							}
+						}
+					}
+					continue
+				}
+			}
+			callArgs = append(callArgs, v)
+		}
+		for i, v := range callArgs {
+			decl = append(decl, fmt.Sprintf("\tvar a%d %s", i, td.nameFor(v, 0)))
+			args = append(args, fmt.Sprintf("a%d", i))
+		}
+		callsite = fmt.Sprintf("func __callsite() {\n%s\n\t%s(%s)\n}", strings.Join(decl, "\n"), rs.Funcs[0].Name.Name, strings.Join(args, ", "))
+	}
 	if td.skip != "" {
+		lastSkip = td.skip
 		return nil, false, ""
+	}
+	if callsite != "" {
+		td.decls = append(td.decls, callsite)
 	}
 	if td.useUnsafe {
 		imports = append(imports, `import "unsafe"`)
@@ -776,6 +885,7 @@ func typecheckResidOpt(rs *Resid, funcSig func(h *Hole, td *typeDecls) string, s
 	for _, e := range errs {
 		if strings.Contains(e, "invalid map key type") {
 			// the oracle chose a key type Go does not allow as a map key: no such input exists
+			lastSkip = "infeasible: invalid map key type"
 			return nil, false, ""
 		}
 	}
@@ -822,6 +932,35 @@ func docSig(h *Hole, td *typeDecls) string {
 		if len(h.Args) == 2 {
 			return fmt.Sprintf("(a %s, b %s) %s", arg(0), arg(1), arg(1))
 		}
+	case "fmap":
+		// deriveFmap(func(A) B, <-chan A) <-chan B ; deriveFmap(func(A) B, []A) []B
+		if len(h.Args) == 2 {
+			res := td.sigResult(h.Args[0])
+			switch kindOfVal(h.Args[1]) {
+			case "*types.Chan":
+				if res != "" {
+					return fmt.Sprintf("(f %s, in %s) <-chan %s", arg(0), arg(1), res)
+				}
+			case "*types.Slice":
+				if res != "" {
+					return fmt.Sprintf("(f %s, in %s) []%s", arg(0), arg(1), res)
+				}
+			}
+		}
+	case "join":
+		// deriveJoin(<-chan <-chan T) <-chan T ; deriveJoin([][]T) []T
+		if len(h.Args) == 1 {
+			switch kindOfVal(h.Args[0]) {
+			case "*types.Chan":
+				if inner, ok := td.compVal(h.Args[0], "Elem"); ok && kindOfVal(inner) == "*types.Chan" {
+					return fmt.Sprintf("(in %s) <-chan %s", arg(0), td.compOf(inner, "Elem"))
+				}
+			case "*types.Slice":
+				if inner, ok := td.compVal(h.Args[0], "Elem"); ok && kindOfVal(inner) == "*types.Slice" {
+					return fmt.Sprintf("(in %s) []%s", arg(0), td.compOf(inner, "Elem"))
+				}
+			}
+		}
 	case "keys":
 		return fmt.Sprintf("(m %s) []%s", arg(0), td.compOf(h.Args[0], "Key"))
 	case "set":
@@ -867,6 +1006,7 @@ func cmdTyped(args []string) {
 	c.R.Prefetch(plugins...)
 	for _, p := range plugins {
 		typed, skipped, bad := 0, 0, 0
+		skips := map[string]int{}
 		hist := map[string]int{}
 		ex := map[string]string{}
 		for _, rs := range c.acceptedResids(p) {
@@ -876,6 +1016,11 @@ func cmdTyped(args []string) {
 			errs, done, src := typecheckResidSrc(rs, docSig)
 			if !done {
 				skipped++
+				r := lastSkip
+				if len(r) > 60 {
+					r = r[:60]
+				}
+				skips[holeRe.ReplaceAllString(r, "_")]++
 				continue
 			}
 			typed++
@@ -903,6 +1048,9 @@ func cmdTyped(args []string) {
 			}
 		}
 		fmt.Printf("## %-10s typed=%d skipped=%d with-errors=%d\n", p, typed, skipped, bad)
+		for r, n := range skips {
+			fmt.Printf("   skip %4d  %s\n", n, r)
+		}
 		var ks []string
 		for k := range hist {
 			ks = append(ks, k)
@@ -974,13 +1122,22 @@ func rR4(c *Ctx, plugins ...string) {
 				where = append(where, rs.Run.where(c.Repo, line))
 			}
 			msg := stripLine(errs[0])
+			what := "the emitted code does not type-check"
+			if gf == "?" && len(rs.Funcs) > 0 {
+				// the error is in the synthetic call site: the derived function does not accept the call's argument types
+				if l := rs.line(rs.Funcs[0].Pos()); l > 0 && l-1 < len(rs.Run.LinePos) {
+					gf = c.Repo.funcAt(rs.Run.LinePos[l-1])
+					where = append(where, rs.Run.where(c.Repo, l))
+				}
+				what = "the derived function does not accept arguments of the types the call was made with"
+			}
 			key := fmt.Sprintf("R4|%s|%s|%s", p, gf, r4Norm(msg))
 			if seen[key] {
 				continue // same defect on another path
 			}
 			seen[key] = true
 			c.Rep.fail(Finding{Rule: "R4", Key: key, Where: where, Plugin: p, Script: rs.Run.Script,
-				Msg:    fmt.Sprintf("plugin %s: for an input of this shape the emitted code does not type-check (%s): goderive exits 0 and the package no longer compiles", p, msg),
+				Msg:    fmt.Sprintf("plugin %s: for an input of this shape %s (%s): goderive exits 0 and the package no longer compiles", p, what, msg),
 				Detail: "abstract path: " + rs.Run.describe() + "\ntyped residual:\n" + src + "\nerrors:\n" + strings.Join(errs, "\n")})
 		}
 		c.Rep.analysed("typed_residuals:"+p, typed)
